@@ -105,8 +105,9 @@ def _run(pm: ProgramModel, ctx: Ctx, mb: ModelBuilder, cd: Codec) -> None:
     n, o = mb.node, mb.op
     cc = ("constraint", "constraint-count")
     for op in OPS:
-        roots = [n(o(op), n("A"), n("B"))]
-        cd.report("VOC", f"operator:{op}", cd.roundtrip(ctc_model(mb, roots)), f"constraint A {op} B", cc)
+        from ..codec import operator_trees
+        roots = [t for _, t in operator_trees(mb, op)]
+        cd.report("VOC", f"operator:{op}", cd.roundtrip(ctc_model(mb, roots)), f"constraints over {op}", cc)
     cd.report("UNARY", "operator:NOT", cd.roundtrip(ctc_model(mb, [n(o("NOT"), n("A")), n(o("OR"), n(o("NOT"), n("A")), n("B"))])),
               "negation", cc)
     nest = {
